@@ -1732,5 +1732,72 @@ theorem s2kCount_table : ∀ c, c < 256 →
     s2kCountDecode c = (16 + c % 16) * 2 ^ (c / 16 + 6) ∧
     1024 ≤ s2kCountDecode c ∧ s2kCountDecode c ≤ 65011712 := by decide +kernel
 
+/-! ### iterated and salted S2K: the octets fed to the hash contexts -/
+
+theorem s2kCycle_length (input : List Nat) (n i : Nat) : (s2kCycle input n i).length = n := by
+  induction n generalizing i with
+  | zero => rfl
+  | succ n ih => simp [s2kCycle, ih]
+
+theorem s2kCycle_getElem (input : List Nat) (n i k : Nat) (hk : k < n) :
+    (s2kCycle input n i)[k]? = some (input.getD ((i + k) % input.length) 0) := by
+  induction n generalizing i k with
+  | zero => omega
+  | succ n ih =>
+    cases k with
+    | zero => simp [s2kCycle]
+    | succ k =>
+      simp only [s2kCycle, List.getElem?_cons_succ]
+      rw [ih (i + 1) k (by omega)]; congr 3; omega
+
+theorem s2kFeed_length (input : List Nat) (cnt : Nat) :
+    (s2kFeed input cnt).length = max input.length cnt := by
+  simp [s2kFeed, s2kCycle_length]; omega
+
+theorem s2kFeed_prefix (input : List Nat) (cnt : Nat) : input <+: s2kFeed input cnt := by
+  simp [s2kFeed]
+
+theorem s2kFeed_periodic (input : List Nat) (cnt k : Nat) (hk : k < max input.length cnt) :
+    (s2kFeed input cnt)[k]? = some (input.getD (k % input.length) 0) := by
+  unfold s2kFeed
+  by_cases h : k < input.length
+  · rw [List.getElem?_append_left h, Nat.mod_eq_of_lt h]; simp [List.getD, h]
+  · rw [List.getElem?_append_right (by omega), s2kCycle_getElem _ _ _ _ (by omega)]
+    congr 3; omega
+
+
+theorem flatten_length_const {α} (l : List (List α)) (n : Nat) (h : ∀ x ∈ l, x.length = n) :
+    l.flatten.length = l.length * n := by
+  induction l with
+  | nil => simp
+  | cons a l ih =>
+    simp only [List.flatten_cons, List.length_append, List.length_cons]
+    rw [ih (fun x hx => h x (List.mem_cons_of_mem _ hx)), h a List.mem_cons_self]
+    rw [Nat.add_mul]; omega
+
+/-- the key has exactly the requested length (for a digest function with `hashlen` octets of output) -/
+theorem s2kKey_length (H : List Nat → List Nat) (hashlen sklen : Nat) (salt pw : List Nat)
+    (iterated : Bool) (c : Nat) (hH : ∀ x, (H x).length = hashlen) (hs : salt.length = 8)
+    (hl : 0 < hashlen) : (s2kKey H hashlen sklen salt pw iterated c).length = sklen := by
+  unfold s2kKey s2kStreams
+  rw [if_neg (by omega), List.length_take, flatten_length_const _ hashlen]
+  · simp only [List.length_map, List.length_range]
+    have := Nat.lt_div_mul_add hl (a := sklen)
+    have h2 : (sklen / hashlen + 1) * hashlen = sklen / hashlen * hashlen + hashlen := by
+      rw [Nat.add_mul]; omega
+    omega
+  · intro x hx; simp only [List.mem_map] at hx
+    obtain ⟨_, _, rfl⟩ := hx; exact hH _
+
+/-- context `j` hashes `j` zero octets, then the feed of `salt ‖ passphrase` -/
+theorem s2kStreams_getElem (hashlen sklen : Nat) (salt pw : List Nat) (iterated : Bool) (c j : Nat)
+    (hs : salt.length = 8) (hl : 0 < hashlen) (hj : j < sklen / hashlen + 1) :
+    (s2kStreams hashlen sklen salt pw iterated c)[j]? =
+      some (List.replicate j 0 ++ s2kFeed (salt ++ pw) (if iterated then s2kCountDecode c else 0)) := by
+  unfold s2kStreams
+  rw [if_neg (by omega)]
+  simp [hj, s2kStream]
+
+
 end Tmcg.Pgp
 
